@@ -296,6 +296,10 @@ def script_case(case):
     y = problems.initial_state(shape, dtype, case["seed"])
     tolv = 1e-9
     m = M(shape, dtype=np.dtype(dtype), rtol=dtype(tolv), atol=dtype(tolv))
+    if case.get("ctrl") == "user":
+        # the caller's own step controller through the public adaptation_fn hook (here: keep the step, never ask for a redo).  Whether a stage system was
+        # solved is not the controller's business: with any controller an unsolved step must be redone or refused
+        m.adaptation_fn = lambda integ: (integ.solver_dict["timestep"], False)
     sc = Scripted(case["script"], case["tail"])
     sc.real = opt.nonlinear_roots
     opt.nonlinear_roots = sc
@@ -320,7 +324,7 @@ def script_case(case):
         check_rk_state(r, m, M, f, L, dtype(0.5), y, h, dT, dY, dtype, case, tol_newton=tn, label=" (scripted)")
         if (dT > 0) != (h > 0):
             r.v("C02/dT-sign-size/%s" % case["method"], "returned step has the sign of the request", case, observed=float(dT), expected=float(h))
-        r.out(("script", case["method"], "accepted", len(sc.log)))
+        r.out(("script", case["method"], "accepted", len(sc.log), case.get("ctrl", "default")))
     else:
         if any(truthful_ok) and case["tail"] == "T":
             # raising although some attempt was solved: allowed only if the controller rejected it -- not for these fixed-step cells
@@ -428,8 +432,10 @@ def build_cases(ctx):
         for h in (0.125, -0.125):
             for s in scripts:
                 cases.append(dict(section="script", method=M.__name__, script=s, tail="T", h=h, seed=seed))
+                cases.append(dict(section="script", method=M.__name__, script=s, tail="T", h=h, seed=seed, ctrl="user"))
             for tail in ("F", "L"):
                 cases.append(dict(section="script", method=M.__name__, script="", tail=tail, h=h, seed=seed))
+                cases.append(dict(section="script", method=M.__name__, script="", tail=tail, h=h, seed=seed, ctrl="user"))
                 cases.append(dict(section="script", method=M.__name__, script="T" if tail == "F" else "F", tail=tail, h=h, seed=seed)) if False else None
     for i in range(0, len(cases), max(1, len(cases) // 8)):
         cases[i]["sample"] = True
